@@ -468,6 +468,11 @@ pub fn catalog(r: &Rich) -> Vec<Entry> {
         )
         .fm(r.p0, ml_v2),
     );
+    for (name, pe) in [("reposition_liquidity_v2(empty position)", r.pos_te_empty), ("reposition_liquidity_v2(empty plain position)", r.pos_plain_empty)] {
+        // nothing is withdrawn from an empty position: the authority check must not hide behind the withdrawal
+        let p = &w.positions[pe];
+        v.push(e(name, Class::Position(pe), w.ix_reposition(pe, p.lower - ts, p.upper + ts, 5000, 0, 0, u64::MAX, u64::MAX), 4));
+    }
     {
         let p = &w.positions[r.pos_te];
         v.push(
